@@ -221,6 +221,8 @@ def _leaf(v, path=None):
         return "type:" + v.__name__
     if isinstance(v, types.ModuleType):
         return "mod:" + v.__name__
+    if type(v) is _Probe:
+        return "probe:%s" % (v.value(),)
     if hasattr(v, "so_far") and hasattr(v, "tell"):       # cencoding.NumpyIO: position AND content are state
         try:
             return "nio@%d:%s" % (v.tell(), sha(bytes(v.so_far()))[:12])
@@ -400,7 +402,36 @@ def _module_roots():
                 continue
             if _is_state(cv):
                 out["cell:%s/%s.%s" % (mname, qual, f.__code__.co_freevars[i])] = cv
+    out.update(process_roots())
     return out
+
+
+class _Probe:
+    """process-global interpreter state that is not an object one can hold (working directory, environment, locale): its
+    current value is taken whenever the fingerprint / signature is"""
+    __slots__ = ("name", "fn")
+
+    def __init__(self, name, fn):
+        self.name, self.fn = name, fn
+
+    def value(self):
+        try:
+            return self.fn()
+        except Exception as e:      # noqa
+            return "?%s" % type(e).__name__
+
+
+def process_roots():
+    """State of the PROCESS outside the package that package code could change and that every thread sees: the warnings filters
+    (warnings.catch_warnings / simplefilter save, change and restore a process-wide list), the working directory, the environment,
+    the locale, numpy's print / error settings are per thread or context and are not included"""
+    import warnings
+    import locale
+    # (catch_warnings REBINDS warnings.filters to a copy: the list object held at one time says nothing - probe the module attribute)
+    return {"process:warnings/filters": _Probe("filters", lambda: "%d:%s" % (len(warnings.filters), sha(repr(warnings.filters))[:12])),
+            "process:os/cwd": _Probe("cwd", os.getcwd),
+            "process:os/environ": _Probe("environ", lambda: sha(repr(sorted(os.environ.items())))[:12]),
+            "process:locale": _Probe("locale", lambda: repr(locale.setlocale(locale.LC_ALL)))}
 
 
 def inventory_coverage(inv):
@@ -484,7 +515,7 @@ def inventory_coverage(inv):
             m, rest = path[6:].split("/", 1)
             if rest not in static.get(("func_attr", m), ()):
                 dynamic_only.append(path)
-        elif path.startswith("cell:"):
+        elif path.startswith("cell:") or path.startswith("process:"):
             pass
         else:
             m, n_ = path.split("/", 1)
@@ -613,6 +644,8 @@ class _Vol:
     def sig(self):
         o = self.o
         try:
+            if type(o) is _Probe:
+                return o.value()
             if hasattr(o, "so_far"):
                 return (o.tell(), hash(bytes(o.so_far())))
             if hasattr(o, "tell"):
@@ -625,7 +658,7 @@ class _Vol:
 
 
 def _volatile(v):
-    if isinstance(v, bytearray):
+    if isinstance(v, bytearray) or type(v) is _Probe:
         return True
     if hasattr(v, "tell") and (hasattr(v, "read") or hasattr(v, "so_far")):
         return True
